@@ -457,6 +457,10 @@ def corpus():
             ["cfg max=64 timeout=2 inmax=2", "burst 4 4097 reject", "ev established 1 0", "inbound 1 4 4 fb=2",
              "answer i0 3 3 feedback", "answer i0 3 3 feedback", "inbound 1 4 5 hold fb=9", "feed i1", "answer i1 100 3 feedback",
              "inbound 1 4 6", "refuse i2", "answer i2 1 1 feedback", "state"],
+            # more active requests on one connection than the event channel holds (4096): when the connection closes
+            # every one of them still gets its failure (the protocol waits for the user to read; seeded change C13-d1)
+            ["cfg max=64 timeout=2 inmax=none", "ev established 1 0", "burst 1 2100 reject", "burst 1 2100 reject",
+             "ev closed 1 0", "state"],
             # the read of an inbound request completes after its connection was replaced / is gone
             ["cfg max=64 timeout=2 inmax=2", "ev established 1 0", "inbound 1 4 4 hold", "ev closed 1 0", "ev established 1 1",
              "feed i0", "state", "inbound 1 4 5 hold fb=1", "ev closed 1 1", "feed i1", "state"]]
